@@ -11,7 +11,7 @@ TRUSTED = [
     "Coq 8.16.1 kernel; no axioms",
     "PARTIAL: proved = acceptance depends only on the tag sequence and the field parsers' verdicts, and accepted texts are reproduced exactly (Props/C03.v); NOT proved = inclusion of the specification's tag language in the accepted language; that part is enumeration of structures (bounded repetitions) on the library and the extracted model",
     "independent specification spec/mt_layouts.json (30 types) and spec/field_examples.json (87 tag/option keys), written by hand from SR2025; a transcription error there is a false alarm or a miss",
-    "translator rs2v (layouts); byte-level model tied by correspondence",
+    "translator rs2v (layouts); the transcription of the byte-level extractor is tied by correspondence; that it realises the token cursor on canonical texts is proved (Engine/Factor.v) and every generated text of this stream is checked to be in that class",
 ]
 
 
